@@ -16,6 +16,8 @@ STD_ENUMS = {
     "std::result::Result": ["Ok", "Err"],
     "std::cmp::Ordering": ["Less", "Equal", "Greater"],
     "std::ops::ControlFlow": ["Continue", "Break"],
+    "std::collections::hash_map::Entry": ["Occupied", "Vacant"],
+    "std::collections::btree_map::Entry": ["Vacant", "Occupied"],
 }
 ORDERING_VALUES = {"Less": -1, "Equal": 0, "Greater": 1}
 
@@ -211,6 +213,8 @@ class Interp:
                 path.append(("index", idx, iv))
             elif k == "cindex":
                 path.append(("cindex", p["offset"], p["from_end"]))
+            elif k == "subslice":
+                path.append(("subslice", p["from"], p["to"], p["from_end"]))
             else:
                 path.append(("other", k))
         return cell, tuple(path)
@@ -295,6 +299,14 @@ class Interp:
                 if 0 <= i < len(v.elems):
                     return v.elems[i]
             return Top(deps_of(v), "const index")
+        if k == "subslice":
+            # `[a, rest @ .., z]` patterns: elements from..to (to counted from the end when from_end)
+            if isinstance(v, VecV) and v.elems is not None:
+                n = len(v.elems)
+                lo, hi = st[1], (n - st[2] if st[3] else st[2])
+                if 0 <= lo <= hi <= n:
+                    return VecV(v.elems[lo:hi], elem_ty=v.elem_ty)
+            return Top(deps_of(v), "sub-slice pattern")
         if k == "deref":
             return v
         return Top(deps_of(v), "projection %s" % (st,))
@@ -1135,14 +1147,35 @@ class Interp:
         if isinstance(a, BoolV) and isinstance(b, BoolV):
             if base in ("BitAnd", "BitOr", "BitXor", "Eq", "Ne"):
                 va, vb = a.val, b.val
+                # exact bit expression of the result when both flags have one (frame bits / XOR sets / truth tables)
+                rb = None
+                if a.bit is not None and b.bit is not None and a.bit != TBIT and b.bit != TBIT:
+                    from .domain import bit_and, bit_or
+                    if base in ("BitXor", "Ne"):
+                        rb = bit_xor(a.bit, b.bit)
+                    elif base == "Eq":
+                        x = bit_xor(a.bit, b.bit)
+                        rb = bit_xor(x, 1) if x != TBIT else TBIT
+                    elif base == "BitAnd":
+                        rb = bit_and(a.bit, b.bit)
+                    else:
+                        rb = bit_or(a.bit, b.bit)
+                    if rb == TBIT:
+                        rb = None
                 if base == "BitAnd":
                     val = False if (va is False or vb is False) else (True if (va and vb) else None)
-                    return BoolV(val, ("and", (a, b)), a.deps | b.deps)
+                    if val is None and rb is not None and bit_is_const(rb):
+                        val = bool(rb)
+                    return BoolV(val, ("and", (a, b)), a.deps | b.deps, None, rb if val is None else None)
                 if base == "BitOr":
                     val = True if (va or vb) else (False if (va is False and vb is False) else None)
-                    return BoolV(val, ("or", (a, b)), a.deps | b.deps)
+                    if val is None and rb is not None and bit_is_const(rb):
+                        val = bool(rb)
+                    return BoolV(val, ("or", (a, b)), a.deps | b.deps, None, rb if val is None else None)
                 val = None if va is None or vb is None else ((va != vb) if base in ("BitXor", "Ne") else (va == vb))
-                return BoolV(val, None, a.deps | b.deps)
+                if val is None and rb is not None and bit_is_const(rb):
+                    val = bool(rb)
+                return BoolV(val, None, a.deps | b.deps, None, rb if val is None else None)
         if isinstance(a, FloatV) and isinstance(b, FloatV):
             return ops.float_binop(base, a, b)
         if isinstance(a, IntV) and isinstance(b, BoolV) or isinstance(a, BoolV) and isinstance(b, IntV):
@@ -1159,9 +1192,7 @@ class Interp:
         if kind.startswith("IntToInt"):
             if isinstance(a, BoolV):
                 if ts in INT_TYPES:
-                    if a.val is not None:
-                        return IntV.const(ts, int(a.val))
-                    return IntV(ts, None, 0, 1, None, a.deps)
+                    return ops.bool_to_int(a, ts)
             if isinstance(a, IntV) and ts in INT_TYPES:
                 return ops.cast_int(a, ts)
             return Top(deps_of(a), "int cast of %s" % a.kind)
